@@ -163,3 +163,46 @@ def inplace_edit_records(jp, queries, env=None, extra=None, rounds: int = 6):
 ROOT_QUERIES = ["$.items[?@.v == $.want]", "$.items[?@.v >= $.cfg.lim]", "$.items[?count($.ref[*]) > @.v]", "$.items[?length($.ref) == @.v]",
                 "$.items[?value($.cfg[*]) == @.v]", "$.items[?length(@.s) == length($.ref)]", "$.items[?$.cfg.lim]",
                 "$.items[?@.v == $.cfg.lim || @.v == $.want]", "$..[?@ == $.want]", "$.items[?match(@.s, 'a.*') && @.v != $.want]"]
+
+
+def stream_records(jp, env=None, rounds: int = 12):
+    """One compiled query applied to a STREAM of short-lived documents (the JSON-lines pattern): each document is
+    decoded, an iterator over it is created, the document is dropped, the iterator exhausted (or abandoned after
+    one item), and the next document is decoded - very likely at the address of the dead one.  Whatever the
+    implementation remembered about a document by identity is now about another document."""
+    import json  # noqa: PLC0415
+
+    from .. import core  # noqa: PLC0415
+
+    recs = []
+    e = env or jp
+    lines = ['{"items": [{"v": 1}, {"v": 5}, {"v": 9}], "note": "no threshold"}',
+             '{"items": [{"v": 1}, {"v": 5}, {"v": 9}], "threshold": 3}',
+             '{"items": [{"v": 1}, {"v": 5}, {"v": 9}], "threshold": 7}',
+             '{"items": [{"v": 7}, {"v": 5}, {"v": 9}], "thresholx": 0}']
+    for q, wrap in (("$.items[?@.v > $.threshold]", False), ("$[0].items[?@.v > $[0].threshold]", True),
+                    ("$.items[?count($.threshold) == 1 && @.v > 1]", False), ("$..[?@.v >= $.threshold]", False),
+                    ("$.items[?!$.threshold]", False), ("$[0].items[?$..threshold]", True)):
+        c = e.compile(q)
+        for k in range(rounds):
+            line = lines[(k * 7 + k // 3) % len(lines)]
+            text = "[" + line + "]" if wrap else line
+            doc = json.loads(text)
+            it = iter(c.finditer(doc))
+            del doc
+            if k % 4 == 3:
+                first = next(it, None)          # abandoned after one item
+                got = [] if first is None else [first]
+                partial = True
+            else:
+                got = list(it)
+                partial = False
+            del it
+            locs = [core.enc_loc(n.location) for n in got]
+            del got
+            rec = {"op": "find", "q": core.enc_text(q), "doc": core.enc_value(json.loads(text)), "out": "ok", "stage": "find",
+                   "jp": True, "cls": "", "locs": locs}
+            if partial:
+                rec["op"] = "findfirst"
+            recs.append(rec)
+    return recs
